@@ -56,6 +56,9 @@ func c11SplitProgram(src string) (*c11Split, error) {
 	return sp, nil
 }
 
+// what main of the package-dir modes prints first: gDep = gBig/2 + int(gU8), gName = "n0", gDep2 = gDep + len(gName)
+const c11DepsLine = "deps 549755814140 549755814138 n0\n"
+
 type c11Obs struct {
 	Out     string `json:"out"`
 	Globals string `json:"globals"`
@@ -115,7 +118,8 @@ func c11Run(sp *c11Split, mode string, seed uint64, work string) (o c11Obs) {
 		for k, p := range parts {
 			files[fmt.Sprintf("pkgdir/f%d.go", k)] = "package main\n\n" + importsFor(sp.Imports, p) + p
 		}
-		files["pkgdir/zmain.go"] = "package main\n\nfunc main() {\n" + strings.Join(sp.Stmts, "\n") + "\n}\n"
+		// main first reports the cross-file variables (c11DepsLine is what it must print)
+		files["pkgdir/zmain.go"] = "package main\n\nimport \"fmt\"\n\nfunc main() {\n\tfmt.Println(\"deps\", gDep2, gDep, gName)\n" + strings.Join(sp.Stmts, "\n") + "\n}\n"
 	}
 	if len(files) > 0 {
 		m := fstest.MapFS{}
@@ -368,8 +372,12 @@ func checkC11(r *core.Run) {
 		if o.Err != "" {
 			why = append(why, "error: "+o.Err)
 		}
-		if o.Out != ref.Out {
-			why = append(why, "output differs: "+firstDiffText(ref.Out, o.Out))
+		want := ref.Out
+		if strings.HasPrefix(m, "package-dir") {
+			want = c11DepsLine + want
+		}
+		if o.Out != want {
+			why = append(why, "output differs: "+firstDiffText(want, o.Out))
 		}
 		if o.Globals != ref.Globals && o.Err == "" && !strings.HasPrefix(m, "package-dir") { // Globals() does not expose the variables of a directory package
 			why = append(why, "final globals differ: "+firstDiffText(ref.Globals, o.Globals))
